@@ -813,13 +813,18 @@ def _random_history(rng, wrapper, maxlen):
     ops = []
     n = rng.randint(1, maxlen)
     meths = METHODS[wrapper]
-    for _ in range(n):
+    setters = [m for m in meths if DOC_ALLOWED[m] == [_C]]
+    if rng.random() < 0.75:                       # most histories do start the program (after 0-2 setters)
+        for _ in range(rng.choice([0, 0, 1, 2]) if setters else 0):
+            ops.append("call " + rng.choice(setters))
+        ops.append("start")
+    while len(ops) < n:
         r = rng.random()
         if r < 0.7 or not meths:
-            ops.append(rng.choice(CORE_OPS + ["start", "join -", "tick"]))
+            ops.append(rng.choice(CORE_OPS + ["join -", "tick", "cancel"]))
         else:
             ops.append("call " + rng.choice(meths))
-    return ops
+    return ops[:maxlen]
 
 
 def _mk(new_line, ops, kind):
@@ -837,7 +842,7 @@ def _exhaustive_base(maxlen):
 def cases(rng, tier):
     quick = tier == "quick"
     maxlen = 6 if quick else 8
-    n_tmpl, n_rand = (110, 110) if quick else (1500, 2500)
+    n_tmpl, n_rand = (300, 300) if quick else (3000, 5000)
     # every guarded method once in every reachable state (one wrapper per method owner)
     seen = set()
     out = []
